@@ -1014,8 +1014,14 @@ fn gen_gen(rng: &mut Rng, family: &str, n: usize, f32m: bool) -> (Mat, Option<Ve
             }
         }
         _ => {
-            // upper Hessenberg, some sub-diagonal entries zero or tiny (deflation tests of hqr2)
+            // upper Hessenberg, some sub-diagonal entries zero or tiny (deflation tests of hqr2),
+            // sometimes with a zero diagonal (the `s == 0 -> anorm` branch of the deflation test)
             let mut a = rand_mat(rng, n, n);
+            if rng.chance(0.3) {
+                for i in 0..n {
+                    a[i][i] = 0.0;
+                }
+            }
             for i in 0..n {
                 for j in 0..n {
                     if i > j + 1 {
@@ -1361,11 +1367,17 @@ fn main() {
         corr_staged(&mut out, m, true);
     }
     corr_sort_case(&mut out, &[1.0, 2.0], &[0.0, 0.0], &vec![vec![1.0, 0.0], vec![0.0, 1.0]], "sort");
+    // the two known findings, on their minimal inputs
+    let jordan4 = vec![vec![1.0, 0.0, 0.0, 0.0], vec![-1.0, 1.0, 0.0, 0.0], vec![-2.0, 1.0, 1.0, 0.0], vec![2.0, -1.0, 1.0, 1.0]];
+    oracle_gen(&mut out, &mut cal, &jordan4, false, "corpus", &Info { lambda: None, mult: 4 });
+    let ones28: Mat = vec![vec![1.0; 28]; 28];
+    oracle_sym(&mut out, &mut cal, &ones28, true, "corpus", &Info::default());
+    oracle_sym(&mut out, &mut cal, &ones28, false, "corpus", &Info::default());
     let tsym = vec![vec![0.9, 0.4, 0.7], vec![0.4, 0.5, 0.3], vec![0.7, 0.3, 0.8]];
     oracle_sym(&mut out, &mut cal, &tsym, false, "corpus", &Info::default());
 
     // ---- correspondence: modelled helpers on random inputs ----
-    let k = if a.thorough { 4 } else { 1 };
+    let k = if a.thorough { 6 } else { 2 };
     for _ in 0..40 * k {
         let n = rng.usize_in(1, 7);
         let d = small_vals(&mut rng, n, true);
@@ -1436,7 +1448,7 @@ fn main() {
     }
 
     // ---- search ----
-    let per_family = std::env::var("VERIF_C02_N").ok().and_then(|s| s.parse().ok()).unwrap_or(if a.thorough { 4000 } else { 300 });
+    let per_family = std::env::var("VERIF_C02_N").ok().and_then(|s| s.parse().ok()).unwrap_or(if a.thorough { 4000 } else { 800 });
     for fam in SYM_FAMILIES.iter() {
         for i in 0..per_family {
             let n = pick_n(&mut rng);
